@@ -305,13 +305,13 @@ func init() {
 			{Name: "shipped", TShards: 4, Run: c08Shipped},
 			{Name: "reuse", TShards: 4, Run: func(c *Ctx) { alignReuse(c, alignOpts{validity: true}, 0) }},
 			{Name: "readers", Race: true, QShards: 2, TShards: 4, Run: c08Readers},
-			{Name: "large", QShards: 2, TShards: 8, Run: func(c *Ctx) { alignLarge(c, alignOpts{validity: true}, c08Gen) }},
+			{Name: "large", QShards: 4, TShards: 8, Run: func(c *Ctx) { alignLarge(c, alignOpts{validity: true}, c08Gen) }},
 			{Name: "parallel", Race: true, Run: alignParallel},
 			firstCallUnit(firstAlign("C08")),
 			firstParallelUnit(parAlign),
 			reuseUnit(reuseAlign),
-			{Name: "largecalls", QShards: 3, TShards: 6, StallSec: 120, Run: func(c *Ctx) { alignLargeCalls(c, alignOpts{validity: true, local: true}, c08Gen) }},
-			{Name: "wide", QShards: 3, TShards: 6, Run: func(c *Ctx) { alignWide(c, alignOpts{validity: true, local: true}, c08Gen) }},
+			{Name: "largecalls", QShards: 6, TShards: 8, StallSec: 120, Run: func(c *Ctx) { alignLargeCalls(c, alignOpts{validity: true, local: true}, c08Gen) }},
+			{Name: "wide", QShards: 8, TShards: 10, Run: func(c *Ctx) { alignWide(c, alignOpts{validity: true, local: true}, c08Gen) }},
 			{Name: "manycalls", QShards: 4, TShards: 6, Run: func(c *Ctx) { alignManyCalls(c, alignOpts{validity: true, local: true}, c08Gen) }},
 		},
 	})
@@ -331,9 +331,9 @@ func init() {
 			{Name: "shipped", TShards: 4, Run: c09Shipped},
 			{Name: "tables", Run: c09Tables},
 			{Name: "reuse", TShards: 4, Run: func(c *Ctx) { alignReuse(c, alignOpts{validity: true, optimal: true}, 1) }},
-			{Name: "large", QShards: 2, TShards: 8, Run: func(c *Ctx) { alignLarge(c, alignOpts{validity: true, optimal: true}, c09Gen) }},
-			{Name: "largecalls", QShards: 3, TShards: 6, StallSec: 120, Run: func(c *Ctx) { alignLargeCalls(c, alignOpts{validity: true, optimal: true, local: true}, c09Gen) }},
-			{Name: "wide", QShards: 3, TShards: 6, Run: func(c *Ctx) { alignWide(c, alignOpts{validity: true, optimal: true, local: true}, c09Gen) }},
+			{Name: "large", QShards: 4, TShards: 8, Run: func(c *Ctx) { alignLarge(c, alignOpts{validity: true, optimal: true}, c09Gen) }},
+			{Name: "largecalls", QShards: 6, TShards: 8, StallSec: 120, Run: func(c *Ctx) { alignLargeCalls(c, alignOpts{validity: true, optimal: true, local: true}, c09Gen) }},
+			{Name: "wide", QShards: 8, TShards: 10, Run: func(c *Ctx) { alignWide(c, alignOpts{validity: true, optimal: true, local: true}, c09Gen) }},
 			{Name: "manycalls", QShards: 4, TShards: 6, Run: func(c *Ctx) { alignManyCalls(c, alignOpts{validity: true, optimal: true, local: true}, c09Gen) }},
 			firstCallUnit(firstAlign("C09")),
 			firstParallelUnit(parAlign),
@@ -354,11 +354,12 @@ func init() {
 			{Name: "random", QShards: 2, TShards: 8, Run: c10Random},
 			{Name: "witnesses", Run: c10Witnesses},
 			{Name: "reuse", TShards: 4, Run: func(c *Ctx) { alignReuse(c, alignOpts{validity: true, optimal: true, knownC10: true}, 2) }},
-			{Name: "large", QShards: 2, TShards: 8, Run: func(c *Ctx) { alignLarge(c, alignOpts{validity: true, optimal: true, knownC10: true}, c10Gen) }},
-			{Name: "largecalls", QShards: 3, TShards: 6, StallSec: 120, Run: func(c *Ctx) {
+			{Name: "large", QShards: 4, TShards: 8, Run: func(c *Ctx) { alignLarge(c, alignOpts{validity: true, optimal: true, knownC10: true}, c10Gen) }},
+			{Name: "largecalls", QShards: 6, TShards: 8, StallSec: 120, Run: func(c *Ctx) {
 				alignLargeCalls(c, alignOpts{validity: true, optimal: true, knownC10: true, local: true}, c10Gen)
 			}},
-			{Name: "wide", QShards: 3, TShards: 6, Run: func(c *Ctx) {
+			{Name: "fractional", QShards: 4, TShards: 8, Run: c10Fractional},
+			{Name: "wide", QShards: 8, TShards: 10, Run: func(c *Ctx) {
 				alignWide(c, alignOpts{validity: true, optimal: true, knownC10: true, local: true}, c10Gen)
 			}},
 			{Name: "manycalls", QShards: 4, TShards: 6, Run: func(c *Ctx) {
@@ -410,7 +411,7 @@ func c08Random(c *Ctx) {
 				m = genAlignMatrix(r, matSpec{alpha: alpha, gapOpen: pick(r, []float64{0, -0.5, -2.25}), gapSign: -1, fraction: true})
 				local = true
 			}
-			a, b := relatedPair(r, alpha, pick(r, []int{8, 20, 60}))
+			a, b := relatedPair(r, alpha, pick(r, []int{8, 20, 60, 140})) // (tables of more than 2^12 cells among them)
 			if r.IntN(20) == 0 {
 				b = a // the same slice passed twice
 				k.Count("aliased_arguments", 1)
@@ -503,7 +504,7 @@ func c09Random(c *Ctx) {
 			r := k.Rand()
 			alpha := alignAlphabet(r)
 			m, local := c09Gen(r, i, alpha)
-			a, b := relatedPair(r, alpha, 60)
+			a, b := relatedPair(r, alpha, pick(r, []int{60, 60, 140}))
 			if r.IntN(40) == 0 {
 				a, b, m = longGapCase(r, 0)
 				local = true
@@ -782,7 +783,7 @@ func c10Random(c *Ctx) {
 			r := k.Rand()
 			alpha := alignAlphabet(r)
 			m, _ := c10Gen(r, i, alpha)
-			a, b := relatedPair(r, alpha, 60)
+			a, b := relatedPair(r, alpha, pick(r, []int{60, 60, 140}))
 			if r.IntN(40) == 0 {
 				a, b, m = longGapCase(r, pick(r, []float64{-1, -3, -7}))
 				k.Count("long_gap_cases", 1)
@@ -936,6 +937,109 @@ func alignLarge(c *Ctx, o alignOpts, gen func(r *rand.Rand, mi int, alpha []byte
 	}
 }
 
+// c10Fractional: the scores people write in decimal — match 1, mismatch -1.1,
+// gap extension -0.1 / -0.2, gap-open -0.2 … -0.6 — are not exactly
+// representable, so the order in which a running score, an extension and the
+// gap-open are added changes the last bit, and with it the outcome of the
+// comparisons that are exact ties on paper. Every other unit uses integer or
+// dyadic scores so that all its oracles are exact; here the oracles allow for
+// rounding: the returned score must equal the score of the returned steps and
+// reach the three-state optimum within 1e-9, and a result further below the
+// optimum must be BIT-EQUAL to the single-state recurrence evaluated with the
+// library's own order of additions (the open finding) — anything else is a
+// worse alignment by a whole gap-open, not by an ulp.
+func c10Fractional(c *Ctx) {
+	vals := []float64{1, 0.7, -1.1, -0.1, -0.2, -0.3, -0.4, -0.6, -0.9, 2.3}
+	strs := allStrings([]byte("ab"), c.N(5, 6))
+	nm := c.N(30, 300)
+	const tol = 1e-9
+	for mi := 0; mi < nm; mi++ {
+		c.Case(int64(mi), func(k *K) {
+			r := k.Rand()
+			m := align.SubstitutionMatrix{}
+			match, mismatch := pick(r, []float64{1, 0.7, 2.3}), pick(r, []float64{-1.1, -0.9, -0.3})
+			for _, x := range []byte("ab") {
+				for _, y := range []byte("ab") {
+					if x == y {
+						m[[2]byte{x, y}] = match
+					} else {
+						m[[2]byte{x, y}] = mismatch
+					}
+				}
+				ext := pick(r, []float64{-0.1, -0.2, -0.3, -0.6})
+				m[[2]byte{x, gapB}], m[[2]byte{gapB, x}] = ext, ext
+				if r.IntN(3) == 0 {
+					m[[2]byte{gapB, x}] = pick(r, vals[3:9])
+				}
+			}
+			m[[2]byte{gapB, gapB}] = pick(r, []float64{-0.2, -0.3, -0.4, -0.6, -1.1})
+			k.Input("matrix", matrixDesc(m))
+			known := func(which string) {
+				k.KnownFinding("single-state-recurrence", "align.Global/Local with non-zero gap-open return the value of the single-state recurrence, below the affine optimum when two gap placements compete")
+				k.Count(which+"_known_suboptimal", 1)
+			}
+			for _, a := range strs {
+				for _, b := range strs {
+					k.Evals(1)
+					steps, score := align.Global(a, b, m)
+					rs, ca, cb, prob := rescore(a, b, m, steps, 0, 0)
+					if prob != "" || ca != len(a) || cb != len(b) || math.Abs(rs-score) > tol {
+						k.Input("a", a)
+						k.Input("b", b)
+						k.Failf("global-score-mismatch", "Global(%q,%q) returned %v, its steps %s re-score to %v (%s)", a, b, score, stepsString(steps), rs, prob)
+						return
+					}
+					opt := gotohGlobal(a, b, m)
+					switch {
+					case score > opt+tol:
+						k.Input("a", a)
+						k.Input("b", b)
+						k.Failf("global-above-optimum", "Global(%q,%q) returned %v, above the optimum %v", a, b, score, opt)
+						return
+					case score < opt-tol && score == singleStateGlobal(a, b, m):
+						known("global")
+					case score < opt-tol:
+						k.Input("a", a)
+						k.Input("b", b)
+						k.Failf("global-suboptimal", "Global(%q,%q) returned %v (steps %s); an alignment scoring %v exists, and the result is not the value of the single-state recurrence (%v) either", a, b, score, stepsString(steps), opt, singleStateGlobal(a, b, m))
+						return
+					default:
+						k.Count("global_optimal", 1)
+					}
+					lsteps, ai, bi, lscore := align.Local(a, b, m)
+					if len(lsteps) > 0 {
+						if lrs, _, _, lprob := rescore(a, b, m, lsteps, ai, bi); lprob != "" || math.Abs(lrs-lscore) > tol {
+							k.Input("a", a)
+							k.Input("b", b)
+							k.Failf("local-score-mismatch", "Local(%q,%q) returned %v, its steps re-score to %v (%s)", a, b, lscore, lrs, lprob)
+							return
+						}
+					}
+					lopt := gotohLocal(a, b, m)
+					switch {
+					case lscore > lopt+tol:
+						k.Input("a", a)
+						k.Input("b", b)
+						k.Failf("local-above-optimum", "Local(%q,%q) returned %v, above the optimum %v", a, b, lscore, lopt)
+						return
+					case lscore < lopt-tol && lscore == singleStateLocal(a, b, m):
+						known("local")
+					case lscore < lopt-tol:
+						k.Input("a", a)
+						k.Input("b", b)
+						k.Failf("local-suboptimal", "Local(%q,%q) returned %v; a local alignment scoring %v exists, and the result is not the value of the single-state recurrence (%v) either", a, b, lscore, lopt, singleStateLocal(a, b, m))
+						return
+					default:
+						k.Count("local_optimal", 1)
+					}
+				}
+			}
+			k.Count("fractional_matrices", 1)
+			k.Nontrivial([]byte(matrixString(m)), []byte("fractional"))
+		})
+	}
+}
+
 // alignWide: matrices over WIDE alphabets — 20, 63..65, 100 and all 255 symbols
 // (400 … 65 000 scored pairs), asymmetric in the pair scores and in the two gap
 // directions — on sequences long enough that the table has more cells than the
@@ -946,6 +1050,37 @@ func alignWide(c *Ctx, o alignOpts, gen func(r *rand.Rand, mi int, alpha []byte)
 	widths := []int{20, 63, 64, 65, 100, 255}
 	per := c.N(3, 24)
 	idx := int64(0)
+	// one side wide AND the other long (a per-symbol row cache of len(b) scores cannot hold 255 rows of 40 000):
+	// every symbol comes back after all the others were used
+	for li, sh := range [][2]int{{400, 34000}, {34000, 400}} {
+		c.Case(idx, func(k *K) {
+			r := k.Rand()
+			alpha := make([]byte, 255)
+			for j := range alpha {
+				alpha[j] = byte(j)
+			}
+			m, local := gen(r, li, alpha)
+			a, b := make([]byte, sh[0]), make([]byte, sh[1])
+			for j := range a {
+				a[j] = alpha[(j*7+li)%255]
+			}
+			for j := range b {
+				b[j] = alpha[(j*11+3)%255]
+			}
+			if r.IntN(2) == 0 {
+				copy(b[len(b)/2:], a[:min(len(a), len(b)/2)])
+			}
+			k.Input("alphabet_size", 255)
+			k.Input("len_a", sh[0])
+			k.Input("len_b", sh[1])
+			oo := o
+			oo.local = local && o.local
+			alignCase(k, a, b, m, oo)
+			k.Count("wide_and_long_cases", 1)
+			k.Nontrivial([]byte(fmt.Sprint("wide-long", sh)))
+		})
+		idx++
+	}
 	for _, w := range widths {
 		for i := 0; i < per; i++ {
 			c.Case(idx, func(k *K) {
